@@ -257,6 +257,15 @@ func corpusLT(cfg *config) []string {
 		db := laptimer.NewDB()
 		db.Laps = []laptimer.Lap{{Date: laptimer.LapDate(time.Unix(1654000000, 0)), Track: "q\" a' & < > \t \n \r", Note: "x"}}
 		ops = append(ops, "rt P="+cfg.prop+" D=1 "+strings.Join(ltDumpDB(db), " "))
+		// past model/implementation disagreements (minimised)
+		for _, doc := range []string{
+			"<?'ml version=\"1.0\"?><LapTimerDB><name>x</name></LapTimerDB>",
+			"<?/ml version=\"1.0&amp\"?><LapTimerDB><name>x</name></LapTimerDB>",
+			"<?xml version=\"1.0\"?><LapTimerDB><?xml version=\"1.1\"?><name>x</name></LapTimerDB>",
+			"<?pi?><LapTimerDB><?p a?><name>x</name></LapTimerDB>",
+		} {
+			ops = append(ops, "dec "+hexStr(doc))
+		}
 		if cfg.prop == "C01" {
 			// recorded finding: an omitempty fixed-decimal that is not zero but prints as zero
 			db2 := laptimer.NewDB()
